@@ -31,6 +31,9 @@ ASSUMPTIONS = ['numpy longdouble (64-bit mantissa) contraction is the dense '
 SHARDS = {'quick': 12, 'thorough': 16}
 
 C = 10.
+# 'extreme': every leaf scaled so that its entries are ~1e+-60 (products and
+# squares of two operands stay representable, nothing else is special)
+C01_FAMILIES = gen.FAMILIES + ['extreme-tiny', 'extreme-huge']
 
 
 def gen_cases(seed, tier):
@@ -41,7 +44,7 @@ def gen_cases(seed, tier):
         out.append({'seed': int(rng.integers(1 << 62)),
             'depth': int(rng.integers(1, 5 if tier == 'quick' else 8)),
             'int': bool(rng.random() < 0.3),
-            'family': gen.FAMILIES[j % len(gen.FAMILIES)]})
+            'family': C01_FAMILIES[j % len(C01_FAMILIES)]})
     return out
 
 
@@ -148,8 +151,9 @@ def run_case(case, ctx):
     rng = np.random.default_rng(case['seed'])
     int_mode = case['int']
     fam = 'int' if int_mode else case['family']
-    Y0, info = gen.make_tt(rng, fam, dmax=4 if case['depth'] > 4 else 5,
-        nmax=4, rmax=3, max_entries=600)
+    extreme = fam.startswith('extreme')
+    Y0, info = gen.make_tt(rng, 'generic' if extreme else fam,
+        dmax=4 if case['depth'] > 4 else 5, nmax=4, rmax=3, max_entries=600)
     n = info['n']
     d = len(n)
     nleaf = int(rng.integers(1, 4))
@@ -157,8 +161,13 @@ def run_case(case, ctx):
     for _ in range(nleaf - 1):
         r = gen.rand_ranks(rng, d, 3)
         leaves.append(gen.cores(rng, n, r, 'int' if int_mode else 'normal'))
+    if extreme:
+        ex = (-1 if fam == 'extreme-tiny' else 1) * float(rng.choice([30, 60]))
+        for Y in leaves:
+            for G in Y:
+                G *= 10.0 ** (ex / d)
     # rank growth: mul multiplies ranks, cap total by limiting depth
-    depth = case['depth']
+    depth = case['depth'] if not extreme else 1    # one product at most: squares stay representable
     tree = gen_tree(rng, depth, nleaf, int_mode)
     lv = [leaf_val(Y, int_mode) for Y in leaves]
 
